@@ -82,6 +82,9 @@ CATALOGUE = [
                        {'n': 'rec', 'd': _P('SEQ', fields=[{'n': 'in', 'd': _P('SET', fields=[{'n': 'x', 'd': _P('NULL'), 'opt': 'R'}]), 'opt': 'R'}],
                                             tags=[['I', 'C', 2]]), 'opt': 'O'}]),
      [{'id': 2, 'grid': [[1, 2], []]}, {'id': 2, 'rec': {'in': {'x': ''}}}, {'id': 2, 'grid': [[3]], 'rec': {'in': {'x': ''}}}]),
+    # scalars at the octet-count boundaries of their content (REAL exponents, INTEGER magnitudes)
+    (_P('REAL'), [[1, 2, e] for e in (-128, -129, 127, 128, -32768, -32769, 32767, 32768, -8388608, -8388609, 8388607, 8388608)]),
+    (_P('INTEGER'), [127, 128, -128, -129, 32767, 32768, -32768, -32769, 0, -1, 2 ** 63, -2 ** 63 - 1]),
 ]
 
 
@@ -101,6 +104,24 @@ GOLDEN = [
     (5, {'z': 1, 'x': True}, '31060101ff820101', '31800101ff8201010000'),
     (5, {'z': 1, 'y': '00', 'x': False, 'w': 'w'}, '310b0101006103040100820101', '31800101006180040100' + '0000' + '820101' + '0000'),
     (5, {'z': -1, 'x': True, 'w': 'v'}, '31090101ff8201ffc00176', '31800101ff8201ffc001760000'),
+    # X.690 8.5.7: binary REAL, base 2, mantissa 1; exponent in 1, 2, 3 octets or with a length octet (CER = DER)
+    (9, [1, 2, -128], '0903808001', '0903808001'),
+    (9, [1, 2, -129], '090481ff7f01', '090481ff7f01'),
+    (9, [1, 2, 127], '0903807f01', '0903807f01'),
+    (9, [1, 2, 128], '090481008001', '090481008001'),
+    (9, [1, 2, -32768], '090481800001', '090481800001'),
+    (9, [1, 2, -32769], '090582ff7fff01', '090582ff7fff01'),
+    (9, [1, 2, 32767], '0904817fff01', '0904817fff01'),
+    (9, [1, 2, 32768], '09058200800001', '09058200800001'),
+    (9, [1, 2, -8388608], '09058280000001', '09058280000001'),
+    (9, [1, 2, -8388609], '09078304ff7fffff01', '09078304ff7fffff01'),
+    (9, [1, 2, 8388607], '0905827fffff01', '0905827fffff01'),
+    (9, [1, 2, 8388608], '090783040080000001', '090783040080000001'),
+    (10, 127, '02017f', '02017f'), (10, 128, '02020080', '02020080'), (10, -128, '020180', '020180'),
+    (10, -129, '0202ff7f', '0202ff7f'), (10, 32767, '02027fff', '02027fff'), (10, 32768, '0203008000', '0203008000'),
+    (10, -32768, '02028000', '02028000'), (10, -32769, '0203ff7fff', '0203ff7fff'), (10, 0, '020100', '020100'),
+    (10, -1, '0201ff', '0201ff'), (10, 2 ** 63, '0209008000000000000000', '0209008000000000000000'),
+    (10, -2 ** 63 - 1, '0209ff7fffffffffffffff', '0209ff7fffffffffffffff'),
 ]
 
 
